@@ -252,4 +252,90 @@ Oaat32(name) ==
   IN  <<0, 0, f3[1], f3[2]>>
 
 Hex64(l) == Hex16(l[1]) \o Hex16(l[2]) \o Hex16(l[3]) \o Hex16(l[4])
+---------------------------------------------------------------------------
+(* ===== Growth round 4 (add-only; nothing above this line was changed) ===== *)
+
+CxConcat(seqs) == FoldLeft(LAMBDA acc, part : acc \o part, <<>>, seqs)
+CxMin(a, b) == IF a <= b THEN a ELSE b
+
+(* --- (1) The Jenkins pair for EVERY table width 1..64 ------------------------------------------ *)
+(* HetHash above is only defined for widths >= 8.  The 64-bit lookup3 value is computed once        *)
+(* (limb 0 = least significant, value = pb * 2^32 + pc) and the pair is derived per width:          *)
+(*   file  = (full AND (2^w - 1)) OR 2^(w-1)          (w = 64: full unchanged)                      *)
+(*   name1 = bits (w-8 .. w-1) of file                (w = 64: bits 56..63)                         *)
+(* For w < 8 the published extraction (shift by w - 8) is not defined; the library returns the whole *)
+(* masked hash; `defined` says whether name1 belongs to the property.                               *)
+HetFullHash(name) ==
+  LET h == HashLittle2([i \in 1..Len(name) |-> HetFold(name[i])], <<0, 2>>, <<0, 1>>)
+  IN  [j \in 0..3 |-> CASE j = 0 -> h.c[2] [] j = 1 -> h.c[1] [] j = 2 -> h.b[2] [] j = 3 -> h.b[1]]
+
+HetOfFull(full, bits) ==
+  LET masked == [j \in 0..3 |-> IF bits >= 64 THEN full[j]
+                                ELSE (full[j] & LimbMask(bits, j)) | LimbBit(bits - 1, j)]
+      sh     == IF bits >= 64 THEN 56 ELSE IF bits < 8 THEN 0 ELSE bits - 8
+      bitAt(p) == IF p > 63 THEN 0 ELSE (masked[p \div 16] \div Pow2(p % 16)) % 2
+      name1  == bitAt(sh) + 2*bitAt(sh+1) + 4*bitAt(sh+2) + 8*bitAt(sh+3)
+                + 16*bitAt(sh+4) + 32*bitAt(sh+5) + 64*bitAt(sh+6) + 128*bitAt(sh+7)
+  IN  [file |-> <<masked[3], masked[2], masked[1], masked[0]>>, name1 |-> name1, defined |-> bits >= 8,
+       limbs |-> masked]
+HetHashAny(name, bits) == HetOfFull(HetFullHash(name), bits)
+HetWidths == 1..64
+
+(* --- (2) Bodies of the extended (HET / BET) tables ---------------------------------------------- *)
+(* A stored table = 12-byte extended header (signature, version, data size: never encrypted)        *)
+(* followed by the body (possibly compressed first), encrypted as ONE cipher unit of arbitrary byte *)
+(* length: whole dwords through the block cipher, the trailing len mod 4 bytes in the clear.        *)
+ExtHdrLen == 12
+TblStore(tbl, k) == SubSeq(tbl, 1, CxMin(ExtHdrLen, Len(tbl))) \o EncryptBytes(SubSeq(tbl, ExtHdrLen + 1, Len(tbl)), k)
+TblLoad(st, k)   == SubSeq(st, 1, CxMin(ExtHdrLen, Len(st))) \o DecryptBytes(SubSeq(st, ExtHdrLen + 1, Len(st)), k)
+HetTableKey == HashString(<<40,104,97,115,104,32,116,97,98,108,101,41>>, FILE_KEY)        \* "(hash table)"
+BetTableKey == HashString(<<40,98,108,111,99,107,32,116,97,98,108,101,41>>, FILE_KEY)     \* "(block table)"
+
+(* --- (3) Encrypted files: the cipher units of a stored file ------------------------------------- *)
+(* final key: FileKey(name), with FIX_KEY (FileKey + position) XOR size.  ANY 32-bit value can be a *)
+(* final key, 0 included.  A file of at most one sector is one unit (key).  A longer file is a      *)
+(* sector offset table (unit -1, key - 1) followed by its sectors (unit i, key + i), all mod 2^32.   *)
+(* The library's "key 0 = identity" deviation applies per UNIT (EncryptBytes/DecryptBytes), never   *)
+(* to the file as a whole: a file whose final key is 0 still has key 0xFFFFFFFF on its offset table *)
+(* and keys 1, 2, ... on its later sectors.                                                         *)
+FileFinalKey(name, pos, size, fix) == IF fix THEN FixKey(FileKey(name), pos, size) ELSE FileKey(name)
+FileUnitKey(key, u)     == IF u < 0 THEN Sub32(key, WFromNat(-u)) ELSE Add32n(key, u)
+FileSectorCount(size, ss) == (size + ss - 1) \div ss
+FileSector(p, ss, i)    == SubSeq(p, ss * i + 1, CxMin(ss * (i + 1), Len(p)))       \* i = 0, 1, ...
+U32Bytes(n)             == WBytes(WFromNat(n))
+\* offsets (relative to the file start) of sectors with the given stored lengths; Len = count + 1
+FileOffsets(lens) == FoldLeft(LAMBDA acc, l : Append(acc, acc[Len(acc)] + l), <<4 * (Len(lens) + 1)>>, lens)
+FileZeroUnits(key, nsect) == {u \in (IF nsect > 1 THEN -1 ELSE 0)..(nsect - 1) : FileUnitKey(key, u) = WZero}
+
+\* stored image of a file whose sectors are stored raw (no sector was compressed)
+FileStoreRaw(p, key, ss) ==
+  IF Len(p) <= ss THEN EncryptBytes(p, key)
+  ELSE LET n    == FileSectorCount(Len(p), ss)
+           secs == [i \in 1..n |-> FileSector(p, ss, i - 1)]
+           offs == FileOffsets([i \in 1..n |-> Len(secs[i])])
+           ot   == CxConcat([i \in 1..(n + 1) |-> U32Bytes(offs[i])])
+       IN  EncryptBytes(ot, FileUnitKey(key, -1))
+           \o CxConcat([i \in 1..n |-> EncryptBytes(secs[i], FileUnitKey(key, i - 1))])
+
+\* the decrypted sector offset table of a stored sectored file (n sectors, no checksum sector)
+FileLoadOffsets(st, key, n) ==
+  LET ws == WordsOf(DecryptBytes(SubSeq(st, 1, 4 * (n + 1)), FileUnitKey(key, -1)))
+  IN  [i \in 1..(n + 1) |-> IF ws[i][1] >= 32768 THEN -1 ELSE WToNat(ws[i])]     \* -1: beyond 2^31, never sane
+FileOffsetsSane(offs, n, stlen) ==
+  /\ offs[1] = 4 * (n + 1)
+  /\ \A i \in 1..n : offs[i] <= offs[i + 1]
+  /\ offs[n + 1] = stlen
+
+\* reading it back (raw sectors)
+FileLoadRaw(st, key, ss, size) ==
+  IF size <= ss THEN DecryptBytes(st, key)
+  ELSE LET n    == FileSectorCount(size, ss)
+           offs == FileLoadOffsets(st, key, n)
+       IN  IF ~FileOffsetsSane(offs, n, Len(st)) THEN <<>>
+           ELSE CxConcat([i \in 1..n |-> DecryptBytes(SubSeq(st, offs[i] + 1, offs[i + 1]), FileUnitKey(key, i - 1))])
+\* The published cipher has no identity key: with key 0 it encrypts like with any other key.  These are the
+\* reference values WITHOUT the library's "key 0 = not encrypted" deviation (used for DRIFT diagnostics only).
+EncryptBlockRef(ws, k) == FoldLeft(EncStep, CInit(k), ws).out
+EncryptBytesRef(bs, k) == IF Len(bs) < 4 THEN bs
+                          ELSE BytesOf(EncryptBlockRef(WordsOf(SubSeq(bs, 1, 4 * (Len(bs) \div 4))), k)) \o TailBytes(bs)
 =============================================================================
